@@ -12,6 +12,9 @@ pub enum Content {
     Rand { seed: u64, len: u32 },
     /// compressible text-like bytes from `seed`
     Text { seed: u64, len: u32 },
+    /// `len` pseudo-random bytes followed by four bytes chosen so that the CRC-32 of the whole is `crc`
+    /// (checksums that coincide with 0, all-ones or a record signature)
+    Forged { seed: u64, len: u32, crc: u32 },
 }
 
 impl Content {
@@ -19,6 +22,7 @@ impl Content {
         match self {
             Content::Bytes(b) => b.len(),
             Content::Rep { len, .. } | Content::Rand { len, .. } | Content::Text { len, .. } => *len as usize,
+            Content::Forged { len, .. } => *len as usize + 4,
         }
     }
     pub fn is_empty(&self) -> bool {
@@ -31,6 +35,19 @@ impl Content {
             Content::Rand { seed, len } => {
                 let mut v = vec![0u8; *len as usize];
                 Sm(*seed).fill(&mut v);
+                v
+            }
+            Content::Forged { seed, len, crc } => {
+                let mut v = vec![0u8; *len as usize];
+                Sm(*seed).fill(&mut v);
+                if seed % 2 == 0 {
+                    // compressible variant
+                    for b in v.iter_mut() {
+                        *b = b'a' + (*b % 3);
+                    }
+                }
+                let sfx = super::crypto::crc32_forge_suffix(&v, *crc);
+                v.extend_from_slice(&sfx);
                 v
             }
             Content::Text { seed, len } => {
@@ -63,9 +80,22 @@ pub fn content(max: u32) -> BoxedStrategy<Content> {
         2 => (any::<u8>(), 0..=m).prop_map(|(byte, len)| Content::Rep { byte, len }),
         2 => (any::<u64>(), 0..=m).prop_map(|(seed, len)| Content::Text { seed, len }),
         1 => (any::<u64>(), 0..=m).prop_map(|(seed, len)| Content::Rand { seed, len }),
+        // checksums that coincide with special values
+        1 => (any::<u64>(), 0..=m.min(3000), proptest::sample::select(vec![0u32, 0xFFFF_FFFF, 0x0403_4b50, 0x0807_4b50, 0x0201_4b50, 0x0605_4b50, 1, 0x8000_0000])).prop_map(|(seed, len, crc)| Content::Forged { seed, len, crc }),
+        // lengths at and around the sizes of internal buffers (copy loops, codec windows, cipher blocks)
+        2 => (any::<u64>(), proptest::sample::select(BOUNDARY_LENS.to_vec()), 0u8..3).prop_map(move |(seed, len, k)| {
+            let len = len.min(m);
+            match k {
+                0 => Content::Rand { seed, len },
+                1 => Content::Text { seed, len },
+                _ => Content::Rep { byte: seed as u8, len },
+            }
+        }),
     ]
     .boxed()
 }
+/// exact multiples of common buffer sizes and their neighbours
+pub const BOUNDARY_LENS: [u32; 24] = [15, 16, 17, 127, 128, 129, 4095, 4096, 4097, 8191, 8192, 8193, 16384, 32767, 32768, 32769, 65535, 65536, 65537, 131071, 131072, 131073, 262144, 1048576];
 /// non-empty contents
 pub fn content_nonempty(max: u32) -> BoxedStrategy<Content> {
     let m = max.max(2);
